@@ -58,6 +58,10 @@ class Lifespan:
                 if reraise_error is not None:
                     raise reraise_error
 
+            if self._failure is not None:
+                # The app failed again whilst handling the failure
+                raise self._failure from error
+
             self.supported = False
             if not self.startup.is_set():
                 await self.config.log.warning(
